@@ -711,8 +711,12 @@ class SymInt:
         r = fi(a.lo, a.hi, b.lo, b.hi)
         if r is not None:
             return r
+        wt = a.w + b.w
         a, b = _unify(a, b)
-        return mkbool(f(a.e, b.e))
+        e = f(a.e, b.e)
+        if wt > 4 * SIMPLIFY_WEIGHT:
+            return True if z3.is_true(e) else False if z3.is_false(e) else SymBool(e)
+        return mkbool(e)
 
     def __eq__(self, o):
         if o is None or isinstance(o, (str, bytes, float)):
@@ -798,8 +802,17 @@ class SymInt:
             return a.bit_length()
         if a.hi is None:
             raise Unsupported("bit_length of unbounded integer")
-        r = 0
         n = a.hi.bit_length()
+        lo_bits = a.lo.bit_length() if a.lo is not None and a.lo > 0 else 0
+        if lo_bits == n:
+            return n
+        if _is_bv(a.e):
+            # position of the highest set bit: ascending chain so that the highest one wins (1-bit tests only)
+            w = max(n.bit_length() + 1, 2)
+            r = z3.BitVecVal(lo_bits, w)
+            for i in range(max(lo_bits - 1, 0), n):
+                r = z3.If(z3.Extract(i, i, a.e) == 1, z3.BitVecVal(i + 1, w), r)
+            return mkint(r, lo_bits, n, a.w + n)
         acc = 0
         for i in range(n):
             acc = acc + If(a >= (1 << i), 1, 0)
